@@ -15,7 +15,7 @@ hist = 1500 if quick else 70000
 maxsteps = 10000
 tmp = chk.rundir()
 stats, statd = hcheck.run_shards(chk, exe, ["--histories", str(hist), "--maxsteps", str(maxsteps), "--tmp", tmp],
-                                 shards, timeout=1200 if quick else 7200)
+                                 shards, timeout=1200 if quick else 7200, abort_key="advance/abort")
 cov = chk.coverage
 cov["evaluations"] = stats.get("advance_calls", 0)
 cov["distinct_nontrivial"] = stats.get("histories_finished", 0) + stats.get("histories_stopped_below_min", 0)
@@ -23,7 +23,8 @@ cov["rule"] = ("histories = (start,end over 30 decades, min/max none|equal|tiny,
                "checked against an exact integer shadow time line; non-trivial = histories that reached the end time or were "
                "stopped by a below-minimum request (each from a distinct PRNG stream)")
 cov["monitor_counters"] = stats
-chk.assumptions += ["max step >= min step in generated configurations (the constructor silently raises max to min otherwise)",
+chk.assumptions += ["a process killed by a signal inside TimeLine (e.g. an integer division by zero for a vanishing request) is a violation: the property demands a clean stop",
+                    "max step >= min step in generated configurations (the constructor silently raises max to min otherwise)",
                     "strict increase of *physical* time is only demanded when the step exceeds 8 ulp of the largest time magnitude"]
 chk.require_nonzero(histories_finished=stats.get("histories_finished"), stops=stats.get("stops_expected"),
                     restores=stats.get("twin_compared"), reduced=stats.get("steps_reduced_to_divide"))
